@@ -60,11 +60,21 @@ def _plan(tier):
                 steps.append({'npr': 2, 'reduced': 2 if tier == 'quick' else 1, 'validate': 20,
                               'shard': {'batch_kind1': b1, 'batch_kind2': b2, 'target_sha_known': sk}})
     k1, k2 = (3, 2) if tier == 'quick' else (4, 3)
-    for e in range(8):
-        hists.append({'npr': 1, 'k': k1, 'shard': {'ev0': e}, 'validate': 6})
-    for e in range(8):
+    base7 = ['push', 'review', 'label', 'status', 'batch_done', 'target_move', 'poll']
+    if tier == 'quick':
+        for e in range(7):
+            hists.append({'npr': 1, 'k': k1, 'events': base7, 'shard': {'ev0': e}, 'validate': 6})
+        # head moves whose webhook is late (push_late) against the events that can lead to a merge
+        late = ['push_late', 'batch_done', 'review', 'push', 'target_move']
+        for e in range(len(late)):
+            hists.append({'npr': 1, 'k': 3, 'events': late, 'shard': {'ev0': e}, 'validate': 4})
+    else:
+        for e in range(8):
+            hists.append({'npr': 1, 'k': k1, 'shard': {'ev0': e}, 'validate': 6})
+    ev2 = base7 if tier == 'quick' else base7 + ['push_late']     # quick: the delayed push webhook only in the 1-PR family
+    for e in range(len(ev2)):
         for r1 in range(2):
-            hists.append({'npr': 2, 'k': k2, 'shard': {'ev0': e, 'init_review_1': r1}, 'validate': 4})
+            hists.append({'npr': 2, 'k': k2, 'events': ev2, 'shard': {'ev0': e, 'init_review_1': r1}, 'validate': 4})
     # status contexts spread over several GraphQL pages: page size read from the query text in the source
     import re
     m = re.search(r'contexts \(first: (\d+)', loader.read(SRC))
@@ -83,13 +93,14 @@ def _plan(tier):
     # deliveries while an update is suspended in a GitHub / batch call (lost or late notifications)
     if tier == 'quick':
         intr = {'budget': 1, 'phases': ['getiter', 'graphql', 'list_batches', 'put'],
-                'kinds': ['label', 'review', 'status', 'push', 'batch_done']}
+                'kinds': ['label', 'review', 'status', 'batch_done']}
     else:
         intr = {'budget': 1, 'phases': ['getitem', 'getiter', 'graphql', 'list_batches', 'post_status', 'batch_submit', 'put'],
                 'kinds': ['label', 'review', 'status', 'push', 'target_move', 'batch_done']}
-    for e in range(8):
+    for e in range(len(ev2)):
         for r1 in range(2):
-            hists.append({'npr': 1, 'k': 2, 'intr': intr, 'shard': {'ev0': e, 'init_review_1': r1}, 'validate': 3})
+            hists.append({'npr': 1, 'k': 2, 'intr': intr, 'events': ev2, 'shard': {'ev0': e, 'init_review_1': r1},
+                          'validate': 3})
     return steps, hists
 
 
@@ -223,6 +234,8 @@ def run(R):
                 if not vio['reproduced']:
                     raise HarnessError(f'{name}: counterexample does not reproduce: {vio}')
                 cls = 'merge-' + vio['what'].split(': ')[-1].split(' — ')[0].replace(' ', '-').replace('(', '').replace(')', '').replace(',', '')
+                if 'GitHub-merged-head' in cls:
+                    cls = 'merge-of-a-commit-ci-had-not-verified'
                 if 'status' in cls and 'not-success' in cls:
                     cls = 'merge-with-non-success-status-on-head'
                 st = R.finding(cls, f'{vio["what"]}; events {vio["events"]}',
